@@ -39,6 +39,7 @@ func vNote(s string)
 func vUFBytes(name string, in []byte, outLen int) []byte
 func vSupportSweep(label string, e []byte, w int)
 func vBufClone(b []byte) []byte
+func vUF64(name string, a, b, c uint64) uint64
 func vWatchOff()
 func vWatchOn()
 func vWatchHits() int
@@ -203,6 +204,15 @@ func vTry(f func()) (panicked bool) {
 }
 func vNote(s string) {}
 func vBufClone(b []byte) []byte { return append([]byte(nil), b...) }
+func vUF64(name string, a, b, c uint64) uint64 {
+	h := uint64(1469598103934665603)
+	for _, x := range []uint64{a, b, c} {
+		for i := 0; i < 8; i++ {
+			h = (h ^ (x >> uint(8*i) & 0xff)) * 1099511628211
+		}
+	}
+	return h
+}
 func vWatchOff()                {}
 func vWatchOn()                 {}
 func vWatchHits() int           { return 1 }
